@@ -23,6 +23,7 @@ CFG = dict(
          "observation. Non-trivial = the history contains both a publication that stored records and one that was withheld; distinct by input line.",
     nontrivial=["both"],
     jobs=seeds(2, 6),
+    lean_files=["C06", "ComposeWriteControl"],
     trusted_base=["request strings are ASCII (Go strings.ToUpper on non-ASCII input is not modelled)",
                   "a run directory is the pair (base path, 4-digit number); the date component of the path is whatever day the run happens on",
                   "the data files are modelled as record counts per (run directory, channel, type): record CONTENT is C05's subject; a file with no "
@@ -62,4 +63,11 @@ THEOREMS = [
     ("DastardV.Props.C06", "DastardV.C06.C06_bad_map_refused"),
     ("DastardV.Props.C06", "DastardV.C06.C06_source_end_stops_writing"),
     ("DastardV.Props.C06", "DastardV.C06.C06_uncreatable_path_refused"),
+    ("DastardV.Lemmas.ComposeWriteControl", "DastardV.ComposeWC.writeControl_simulates"),
+    ("DastardV.Lemmas.ComposeWriteControl", "DastardV.ComposeWC.stored_eq_published"),
+    ("DastardV.Lemmas.ComposeWriteControl", "DastardV.ComposeWC.stored_eq_accepted"),
+    ("DastardV.Lemmas.ComposeWriteControl", "DastardV.ComposeWC.file_holds_the_counted_records"),
+    ("DastardV.Lemmas.ComposeWriteControl", "DastardV.ComposeWC.sim_run"),
+    ("DastardV.Lemmas.ComposeWriteControl", "DastardV.ComposeWC.project_append"),
+    ("DastardV.Lemmas.ComposeWriteControl", "DastardV.ComposeWC.shapes_project"),
 ]
